@@ -1149,6 +1149,13 @@ class SRaggedObj(SRagged):
         self.is_contigous = contiguous
         self.buf = buf
 
+    def setattr(self, name, v):
+        # bionumpy tags ragged views with `is_contigous = False` (a hint, not the layout): accepted when it does not claim more than the model knows
+        if name == "is_contigous" and (v is False or (v is True and self.contiguous)):
+            self.is_contigous = v
+            return
+        raise Unsupported("attribute assignment %s = %r on a ragged array" % (name, v))
+
     def fresh_copy(self):
         """.copy() / boolean or fancy row selection: a NEW heap cell holding the current content"""
         f = self.data_at if self.buf is None else self.buf.at
@@ -1343,6 +1350,19 @@ class SRaggedObj(SRagged):
             src = self.fresh_copy()
             st0, ln0 = self.starts, self.lens
             return SRaggedObj(None, m, lambda t: st0(pos(I(t))), lambda t: ln0(pos(I(t))), self.enc, self.total, buf=src.buf)
+        if isinstance(idx, SArr) and idx.kind != "bool":
+            # integer row gather: a COPY; row t of the result is row idx[t] (negative indices wrap), every index in range (obligation)
+            M.use("ragged[int index array] gathers rows into a NEW buffer")
+            fi, m, n0 = idx.snapshot(), idx.length, self.n
+            ip.ctx.oblige("%s:ragged.gather.inbounds@L%s" % (ip.ctx.fname, lineno),
+                          Forall(lambda t: Implies(in_range(t, m), And(I(fi(t)) >= -I(n0), I(fi(t)) < I(n0)))), "safety", lineno)
+            src = self.fresh_copy()
+            st0, ln0 = self.starts, self.lens
+            row = lambda t: M.wrapneg(fi(I(t)), n0)
+            return SRaggedObj(None, m, lambda t: st0(row(t)), lambda t: ln0(row(t)), self.enc, self.total, buf=src.buf)
+        if isinstance(idx, tuple) and len(idx) == 2 and isinstance(idx[0], SArr) and idx[0].kind != "bool" and isinstance(idx[1], slice):
+            # r[rows, lo:hi] = r[rows][:, lo:hi]  (npstructures applies the row index first, then slices every selected row)
+            return self.getitem(ip, idx[0], lineno).getitem(ip, (full, idx[1]), lineno)
         raise Unsupported("ragged index %r" % (idx,))
 
 
